@@ -14,7 +14,14 @@ pub fn random_period(rng: &mut Rng, tier: Tier) -> usize {
         return rng.range(1, 5);
     }
     match tier {
-        Tier::Quick => rng.log_range(1, 64),
+        Tier::Quick => {
+            // mostly <= 64; a thin tail of large windows (chunked/truncated loops only show there)
+            if rng.chance(0.02) {
+                rng.log_range(64, 400)
+            } else {
+                rng.log_range(1, 64)
+            }
+        }
         Tier::Thorough => {
             if rng.chance(0.1) {
                 rng.log_range(1, 1024)
